@@ -147,7 +147,7 @@ class ProtocolObserver(Observer):
         # every connection must still be usable: ping -> pong
         d = self.driver
         for cs in list(d.tr.live()):
-            d.do({"op": "send", "c": cs.cid, "msg": {"type": "ping", "ping": ["probe", cs.cid]}})
+            d.do({"op": "send", "c": cs.cid, "msg": {"type": "ping", "ping": ["probe", cs.cid]}}, force=True)
         self.count("error_kinds", 0)
         self.nt = len(self.kinds) >= 3 and self.later_ok
         for k in self.kinds:
